@@ -107,6 +107,14 @@ func loadProgram(repo string, verifDir string) (*program, error) {
 		}
 		base := p.cons.funcs[fc.pkg+"."+fc.implements]
 		if base == nil {
+			// contract of another package: "<package name>.iface:T.m"
+			for k, b := range p.cons.funcs {
+				if strings.HasSuffix(k, "/"+fc.implements) {
+					base = b
+				}
+			}
+		}
+		if base == nil {
 			return nil, fmt.Errorf("contract %s implements unknown contract %s", key, fc.implements)
 		}
 		fc.requires = append(append([]*clause{}, base.requires...), fc.requires...)
